@@ -719,7 +719,7 @@ func checkRelayBidCache(p *core.Prog, r *core.Report, ds *core.Describer) {
 				continue
 			}
 			n++
-			w := core.Unguarded(ds, bb, nil, func(x ssa.Instruction) bool { return x == ssa.Instruction(ret) }, func(c core.Cond) int {
+			positive := func(c core.Cond) int {
 				if c.Op == "" || !c.X.IsCall("uint256.Int.Sign") || c.Y.Kind != "const" || c.Y.Name != "0" {
 					return -1
 				}
@@ -729,7 +729,17 @@ func checkRelayBidCache(p *core.Prog, r *core.Report, ds *core.Describer) {
 					}
 				}
 				return -1
-			})
+			}
+			// judged per value that can reach the return (a helper's merged result: the bid on one edge, nil on the other)
+			var w []ssa.Instruction
+			for _, lf := range core.FeasibleLeaves(bb, v, ret) {
+				if core.IsNilConst(lf.V) || !strings.Contains(ds.D(lf.V).String(), "cachedBid") {
+					continue
+				}
+				if wl := core.UnguardedLeaf(ds, bb, nil, lf, positive); wl != nil && w == nil {
+					w = wl
+				}
+			}
 			r.Check(w == nil, "C09.f", fmt.Sprintf("blockrelay|serve-cached-bid#%d", i+1), p.Pos(ret.Pos()), "a cached bid is served only when its value is positive", "a cached bid can be served although its value is not positive (the no-winner dummy would be offered to the beacon node)", p.WitnessText(w)...)
 		}
 		r.Floor("C09.f returns serving a cached bid", n, 2)
